@@ -497,3 +497,6 @@ T('c15-twin-endpoint-tmp', 'C15', 'optima_func.py', "    if clip[1] < +np.inf an
 M('c17-pow2-one-sided-grid', 'C17', 'grid.py', "    if 2**q != n:\n        raise ValueError('Invalid mode size (it should be a power of two)')", "    if 2**q < n:\n        raise ValueError('Invalid mode size (it should be a power of two)')")
 M('c17-pow2-one-sided-core', 'C17', 'core.py', "    if 2**d != n:", "    if n > 2**d:")
 T('c17-twin-pow2-sides-swapped', 'C17', 'grid.py', "    if 2**q != n:\n        raise ValueError('Invalid mode size (it should be a power of two)')", "    if n != 2**q:\n        raise ValueError('Invalid mode size (it should be a power of two)')")
+# P-marginal (C14): the marginal vectors of sample() are sums over the mode axis
+M('c14-marginal-mean', 'C14', 'sample.py', "        phi[i] = np.sum(Y[i], axis=1) @ phi[i+1]", "        phi[i] = np.mean(Y[i], axis=1) @ phi[i+1]")
+T('c14-twin-marginal-method-sum', 'C14', 'sample.py', "        phi[i] = np.sum(Y[i], axis=1) @ phi[i+1]", "        phi[i] = Y[i].sum(axis=1) @ phi[i+1]")
